@@ -119,9 +119,10 @@ def literals():
         L.append(_lit(b'%d' % n, 'byte', n))
     for n in (256, 257, 999, 1000, 9999, 10000, 32766, 32767):
         L.append(_lit(b'%d' % n, 'int', n))
-    for n in (0, 1, 0xa, 0xff, 0x100, 0x7fff, 0x8000, 0xabcd, 0xffff):
+    # (the digit strings 10, 100 and 777 occur under both radixes, with different values)
+    for n in (0, 1, 0xa, 0x10, 0xff, 0x100, 0x777, 0x7fff, 0x8000, 0xabcd, 0xffff):
         L.append(_lit(b'&H%X' % n, 'hex', n))
-    for n in (0, 7, 8, 0o777, 0o77777, 0o100000, 0o177777):
+    for n in (0, 7, 8, 0o100, 0o777, 0o77777, 0o100000, 0o177777):
         L.append(_lit(b'&O%o' % n, 'oct', n))
     F = Fraction
     # singles: <= 7 significant digits, exactly representable in 24 bits
